@@ -137,7 +137,13 @@ func histWorker(req N) (resp N) {
 	modcancel := object.NewBuiltin("modcancel", func(ctx context.Context, args ...object.Object) object.Object {
 		return object.NewBool(atomic.LoadInt64(&modCancel) == 1)
 	})
-	globals := map[string]any{"bump": bump, "poke": poke, "spin": spin, "boom": boom, "modfail": modfail, "modcancel": modcancel}
+	// dpoke(): the deferred call of the library functions do_normal / do_error / do_panic: exactly one per invocation
+	var dcount int64
+	dpoke := object.NewBuiltin("dpoke", func(ctx context.Context, args ...object.Object) object.Object {
+		atomic.AddInt64(&dcount, 1)
+		return object.Nil
+	})
+	globals := map[string]any{"bump": bump, "poke": poke, "spin": spin, "boom": boom, "modfail": modfail, "modcancel": modcancel, "dpoke": dpoke}
 	gnames := []string{"bump", "poke", "spin", "boom", "modfail", "modcancel"}
 	cfg := risor.NewConfig()
 	for k := range cfg.Globals() {
@@ -174,9 +180,9 @@ func histWorker(req N) (resp N) {
 		return fmt.Sprintf("n := bump()\npoke()\nimport m%d\nn * 1000 + m%d.val - 6", j, j)
 	}
 	// functions for the Call API come from a library code object run first (not part of the history)
-	lib := "func do_normal() { " + strings.ReplaceAll(snippet["normal"], "\n", "; ") + " }\n" +
-		"func do_error() { n := bump(); poke(); func f(k) { if k == 0 { return [][1] }; return f(k - 1) }; return f(3) }\n" +
-		"func do_panic() { n := bump(); poke(); z := 0; return 1 / z }\n" +
+	lib := "func do_normal() { defer dpoke(); " + strings.ReplaceAll(snippet["normal"], "\n", "; ") + " }\n" +
+		"func do_error() { defer dpoke(); n := bump(); poke(); func f(k) { if k == 0 { return [][1] }; return f(k - 1) }; return f(3) }\n" +
+		"func do_panic() { defer dpoke(); n := bump(); poke(); z := 0; return 1 / z }\n" +
 		"func do_overflow() { n := bump(); poke(); func g(k) { return g(k + 1) }; return g(0) }\n" +
 		"func do_opoverflow() { n := bump(); poke(); func og(k) { return 1 + og(k + 1) }; return og(0) }\n" +
 		"func do_deeppanic() { n := bump(); poke(); func dp(k) { if k == 0 { return boom() }; return dp(k - 1) }; return dp(600) }\n" +
@@ -339,6 +345,11 @@ func histWorker(req N) (resp N) {
 		}
 		if atomic.LoadInt64(&counter) != before+1 {
 			obs += "+effects"
+		}
+		// the deferred call of a library function runs exactly once per invocation of that function
+		if d := atomic.SwapInt64(&dcount, 0); (inv["api"] == "Call" && (kind == "normal" || kind == "error" || kind == "panic") && d != 1) ||
+			(inv["api"] == "RunCode" && d != 0) {
+			obs += fmt.Sprintf("+deferred:%d", d)
 		}
 		if kind == "impok" && rerr == nil {
 			modIdx++
